@@ -740,9 +740,11 @@ func MergeRows(_ interface{},
 		}
 	}
 
-	if res.Deleted {
-		return &res
-	}
+	// A deleted row keeps its column values and their times: an UPDATE that
+	// carries a later write time than a concurrent re-INSERT still has to win
+	// its column after the merge, and it can only do so if the DELETE that
+	// followed it on its own writer did not throw the assignment away. The
+	// values stay hidden while the row is deleted and go with it at vacuum.
 
 	allKeys := make(map[string]struct{})
 	for k := range r1.ColumnValues {
